@@ -202,7 +202,8 @@ theorem grid_get_consistent (s : GState K) (h : GInv s) :
 
 /-- F-09: the pinned `GridWeighted.grid` multiplies all of row `i` by `weights[i]`: on the 2 × 3 grid
     with weights 1..6 point `[0][1]` gets weight 1 instead of 2 and point `[1][0]` gets 2 instead
-    of 4. -/
+    of 4.
+    (Closed witness check: a statement about this one concrete input, decided by evaluation.) -/
 theorem pinned_grid_refutes_own_weight :
     ((gridWeightedPinned g23 w6).getD 0 []).getD 1 [] = [0, 1, 0, 1] ∧
     ((gridWeighted g23 w6).getD 0 []).getD 1 [] = [0, 2, 0, 2] ∧
@@ -210,18 +211,21 @@ theorem pinned_grid_refutes_own_weight :
     ((gridWeighted g23 w6).getD 1 []).getD 0 [] = [4, 0, 0, 4] := by decide
 
 /-- F-09: on the pinned tree a weight set after a read of `grid` is ignored by the next read
-    (stale cache); the repaired setter clears the cache. -/
+    (stale cache); the repaired setter clears the cache.
+    (Closed witness check: a statement about this one concrete input, decided by evaluation.) -/
 theorem pinned_grid_refutes_cache :
     ((gwSetPinned (gwGetPinned gs0).1 w6).map (fun s => (gwGetPinned s).2)) = some (gwGetPinned gs0).2 ∧
     ((gwSet (gwGet gs0).1 w6).map (fun s => (gwGet s).2)) = some (gridWeighted g23 w6) ∧
     (gwGetPinned gs0).2 ≠ gridWeightedPinned g23 w6 := by decide
 
-/-- F-09: the pinned setter accepts a list with non-positive entries (it rejects only if ALL are). -/
+/-- F-09: the pinned setter accepts a list with non-positive entries (it rejects only if ALL are).
+    (Closed witness check: a statement about this one concrete input, decided by evaluation.) -/
 theorem pinned_grid_refutes_validation :
     (gwSetPinned gs0 [1, 0, -3, 4, 5, 6]).isSome = true ∧ (gwSet gs0 [1, 0, -3, 4, 5, 6]).isSome = false := by decide
 
 /-- F-12a: after a read of `ctrlpts`, the pinned `reverse` leaves both caches, so the views no longer
-    fit together; the repaired one keeps them consistent. -/
+    fit together; the repaired one keeps them consistent.
+    (Closed witness check: a statement about this one concrete input, decided by evaluation.) -/
 theorem pinned_reverse_refutes_views :
     (let s := nReversePinned (nGetP ns0).1
      nGetPw s ≠ combine (nGetP s).2 (nGetW s).2) ∧
